@@ -893,7 +893,9 @@ class C05(Prop):
             reenter[c.id] = [docs[(k + 1) % len(docs)] for k in range(len(docs))]
         raws = []
         for c in base:
-            ops = [dict(op='parse', slot=0, **op_cfg(c))]
+            # now and then the Config is modified right after Parse (the same function names re-registered with other bodies):
+            # the parsed function must keep the functions it was parsed with
+            ops = [dict(op='parse', slot=0, mutate=bool(c.filters or c.aggs) and r.random() < 0.35, **op_cfg(c))]
             plan = []
             for k, d in enumerate(c.docs):
                 if c.id in reenter:
@@ -1642,6 +1644,21 @@ class C10(Prop):
             doc, es = gens.refs_family(g, False)
             cases.append(Case('r%d' % i, b'$.list[?(' + r.choice(es) + b')]', [doc, to_jnum(doc)]))
             meta.append((None, []))
+        # numbers compare by value, exactly: neighbours a few units in the last place apart are different numbers
+        import struct
+        def ulp_shift(x, k):
+            return struct.unpack('<d', struct.pack('<q', struct.unpack('<q', struct.pack('<d', x))[0] + k))[0]
+        for i in range(max(60, n // 40)):
+            base = r.choice([0.3, 0.1, 1.1, 2.5e-7, 123456.789, 1e15 + 0.3, 3.0])
+            vals = [base] + [ulp_shift(base, k) for k in r.sample([-4, -3, -2, -1, 1, 2, 3, 4], r.randint(2, 5))] + [base * 2]
+            r.shuffle(vals)
+            ms = [('o', [(b'k', ('n', v)), (b'u', ('n', float(j)))]) for j, v in enumerate(vals)]
+            doc = ('o', [(b'list', ('a', ms)), (b'ref', ('n', base))])
+            lit = repr(base).encode()
+            op = r.choice([b'==', b'!=', b'<', b'<=', b'>', b'>='])
+            text = r.choice([b'@.k ' + op + b' ' + lit, lit + b' ' + op + b' @.k', b'@.k ' + op + b' $.ref', b'$.ref ' + op + b' @.k'])
+            cases.append(Case('y%d' % i, b'$.list[?(' + text + b')]', [doc, to_jnum(doc)]))
+            meta.append((None, []))
         # regular expressions are matched by the regexp package on strings only: literal patterns, anchored or not, against
         # strings that equal, contain, start or end with the literal, and against non-strings spelled like it
         for i in range(max(60, n // 40)):
@@ -2140,7 +2157,7 @@ class C16(Prop):
             key = gen_key(r)
             kb = key.encode('utf-8')
             sibs = [s for s in near_misses(r, key)]
-            pos = r.randint(0, 4)
+            pos = r.randint(0, 5)
             # the member's value: usually 1, sometimes null / false / "" / an empty container (a member holding null is still a
             # member); the filter position compares with == 1 and keeps the number
             tv = ('n', 1.0) if (pos == 3 or r.random() < 0.6) else r.choice([('z',), ('b', False), ('s', b''), ('a', []), ('o', []), ('z',)])
@@ -2172,6 +2189,12 @@ class C16(Prop):
                 elif pos == 3:
                     c = Case(cid, b'$[?(@' + sp + b' == 1)]', [('a', [obj, ('o', [(b'zz', ('n', 1.0))])])])
                     w = 'ok:[%s]' % core.doc_render(obj)
+                elif pos == 5:
+                    # first step of a path written without its leading $, followed by another step
+                    first = sp[1:] if sp.startswith(b'.') else sp
+                    holder = ('o', [(mk, ('o', [(b'w', mv)])) for mk, mv in members] + ([] if kb == b'w' else [(b'w', ('n', 77.0))]))
+                    c = Case(cid, first + r.choice([b'.w', b"['w']"]), [holder])
+                    w = 'ok:[%s]' % tvr
                 else:
                     if sp.startswith(b'.'):
                         c = Case(cid, b'$' + sp, [obj])
@@ -2511,6 +2534,18 @@ class C19(Prop):
                 if path in FAILING_PATHS:
                     failed_before = True
             hists.append((ops, interesting))
+        # type mismatches on values of different Go types that share a reflect kind (json.Number / string; the found type must be
+        # the value's own, whatever was reported earlier in the process)
+        jdoc = ('o', [(b'a', ('j', '12.5')), (b'b', ('a', [('j', '1'), ('j', '2')])), (b'c', ('o', [(b'a', ('j', '3'))]))])
+        sdoc = ('o', [(b'a', ('s', b'text')), (b'b', ('a', [('s', b'1'), ('s', b'2')])), (b'c', ('o', [(b'a', ('s', b'x'))]))])
+        for i in range(max(30, n // 20)):
+            ops = []
+            for k in range(r.randint(2, 5)):
+                path = r.choice([b'$.a.x', b'$.a[0]', b'$.a.*', b'$.c.a.y', b'$.b[0].z', b'$.b[*].z', b'$.a..x', b'$.a[?(@.x)]', b'$.b[1][0]'])
+                d = r.choice([jdoc, sdoc, doc])
+                cfg = {'filters': [], 'aggs': [], 'acc': False, 'nocfg': True}
+                ops.append((dict(op='retrieve', path_hex=hx(path), doc=core.doc_go(d), mutate=False, **cfg), d))
+            hists.append((ops, True))
         # several Configs handed to one call (only the first is documented to count), then the FIRST Config object used again
         # alone: functions of the later Configs must not have leaked into it, whether the first call succeeded or failed
         for i in range(max(30, n // 15)):
